@@ -31,12 +31,16 @@ SCRATCH_ROOT = os.environ.get("VERIF_SCRATCH", "/var/tmp/verif-scratch")
 KANI_DIRS = {"may": os.path.join(VERIF, "kani", "may"), "may_queue": os.path.join(VERIF, "kani", "may_queue")}
 CRATE_ROOT = {"may": "", "may_queue": "may_queue"}
 VERUS_DIR = os.path.join(VERIF, "verus")
-KANI_FLAGS = ["-Z", "unstable-options", "--ignore-global-asm", "-Z", "stubbing", "-Z", "function-contracts"]
+KANI_FLAGS = ["-Z", "unstable-options", "--ignore-global-asm", "-Z", "stubbing", "-Z", "function-contracts",
+              "--no-assertion-reach-checks"]
 JOBS = int(os.environ.get("VERIF_JOBS", "12"))
 MEM_LIMIT_GB = int(os.environ.get("VERIF_MEM_GB", "14"))
 DEFAULT_TIMEOUT = {"quick": 420, "thorough": 3000}
 ENV = dict(os.environ, CARGO_NET_OFFLINE="true", CARGO_TERM_COLOR="never")
 ENV.pop("RUSTFLAGS", None)
+
+# runs against anything but /repo (mutation trials) must not touch the committed evidence
+OUT_ROOT = VERIF if os.path.realpath(REPO) == "/repo" else os.path.join(VERIF, ".cache", "trial")
 
 PROP_ASSERT_RE = re.compile(r"^\[(C\d+\.[A-Za-z0-9_.-]+)\]")
 
@@ -76,7 +80,8 @@ def parse_annotations(path, crate, engine):
             ob["file"] = path
             ob["crate"] = crate
             ob["engine"] = engine
-            ob["harness"] = f"verif_kani::{mod}::{m.group(1)}" if engine == "kani" else m.group(1)
+            ob["inject"] = ob.get("inject", "")
+            ob["harness"] = (kani_mod_path(crate, ob["inject"], mod) + "::" + m.group(1)) if engine == "kani" else m.group(1)
             ob["property"] = ob.get("property", "").split()
             ob["tier"] = ob.get("tier", "quick")
             ob["complete"] = ob.get("complete", "yes").lower() in ("yes", "true")
@@ -90,6 +95,25 @@ def parse_annotations(path, crate, engine):
         elif m:
             cur = {}
     return obs
+
+
+def kani_mod_path(crate, inject, mod):
+    """fully qualified module path of an injected harness file. `inject` is the source file (relative to the
+    crate root, e.g. src/sync/mutex.rs) the file is appended to as a child module (white-box access to the
+    private items of that module); empty = crate root."""
+    name = "vk_" + mod
+    if not inject:
+        return name
+    rel = inject
+    if CRATE_ROOT[crate] and rel.startswith(CRATE_ROOT[crate] + "/"):
+        rel = rel[len(CRATE_ROOT[crate]) + 1:]
+    if rel.startswith("src/"):
+        rel = rel[4:]
+    rel = rel[:-3] if rel.endswith(".rs") else rel
+    parts = [x for x in rel.split("/") if x]
+    if parts and parts[-1] in ("mod", "lib"):
+        parts = parts[:-1]
+    return "::".join(parts + [name])
 
 
 def load_table():
@@ -134,13 +158,15 @@ def make_scratch(tag):
     return d
 
 
-def inject_contract_attrs(scratch, notes):
+def inject_contract_attrs(scratch, notes, pid):
     """Insert `#[cfg_attr(kani, kani::requires/ensures(..))]` lines in front of the functions listed in
     contracts/inplace.json (annotate-in-place on the scratch copy; the function text itself is untouched)."""
     p = os.path.join(VERIF, "contracts", "inplace.json")
     if not os.path.exists(p):
         return
     for c in json.load(open(p)):
+        if pid not in c.get("properties", []):
+            continue
         path = os.path.join(scratch, c["file"])
         if not os.path.exists(path):
             raise Undecided(f"lost anchor: file {c['file']} not found")
@@ -159,7 +185,15 @@ def inject_contract_attrs(scratch, notes):
         notes.append(f"contract attributes inserted before `{c['anchor']}` in {c['file']}")
 
 
-def inject(scratch, crates, files_by_crate, notes):
+def file_inject_target(path):
+    for line in open(path, encoding="utf-8"):
+        m = re.match(r"^\s*//@\s*file-inject:\s*(\S+)", line)
+        if m:
+            return m.group(1)
+    return ""
+
+
+def inject(scratch, crates, files_by_crate, notes, pid):
     for crate in crates:
         root = os.path.join(scratch, CRATE_ROOT[crate])
         lib = os.path.join(root, "src", "lib.rs")
@@ -167,25 +201,25 @@ def inject(scratch, crates, files_by_crate, notes):
             raise Undecided(f"lost anchor: {lib} missing")
         dst = os.path.join(root, "src", "verif_kani")
         os.makedirs(dst, exist_ok=True)
-        mods = []
+        allow = "#[allow(dead_code, unused_imports, unused_variables, unused_mut, static_mut_refs, unused_unsafe, clippy::all)]"
         for f in sorted(files_by_crate[crate]):
-            shutil.copy(f, os.path.join(dst, os.path.basename(f)))
-            mods.append(os.path.splitext(os.path.basename(f))[0])
-        with open(os.path.join(dst, "mod.rs"), "w") as fh:
-            fh.write("//! generated by /verif/tools/pipeline.py — Kani harness module (never committed to /repo)\n")
-            fh.write("#![allow(dead_code, unused_imports, unused_variables, unused_mut, static_mut_refs, clippy::all)]\n")
-            for m in mods:
-                fh.write(f"pub mod {m};\n")
-        with open(lib, "a") as fh:
-            fh.write("\n#[cfg(kani)]\nmod verif_kani;\n")
-        # function-contract support needs these crate features when loop contracts are used; harmless otherwise
+            base = os.path.basename(f)
+            shutil.copy(f, os.path.join(dst, base))
+            mod = "vk_" + os.path.splitext(base)[0]
+            target = file_inject_target(f)
+            tfile = os.path.join(scratch, target) if target else lib
+            if not os.path.exists(tfile):
+                raise Undecided(f"lost anchor: injection target {target} missing")
+            with open(tfile, "a") as fh:
+                fh.write(f"\n#[cfg(kani)]\n{allow}\n#[path = \"{os.path.join(dst, base)}\"]\nmod {mod};\n")
+            notes.append(f"harness module {mod} appended to {os.path.relpath(tfile, scratch)} of the scratch copy under cfg(kani)")
     cargo = os.path.join(scratch, "Cargo.toml")
     with open(cargo, "a") as fh:
         fh.write("\n[patch.crates-io]\n")
         fh.write(f'generator = {{ path = "{VERIF}/kani/shims/generator" }}\n')
         fh.write(f'parking_lot = {{ path = "{VERIF}/kani/shims/parking_lot" }}\n')
     notes.append("[patch.crates-io] generator, parking_lot -> /verif/kani/shims (abstract stand-ins)")
-    inject_contract_attrs(scratch, notes)
+    inject_contract_attrs(scratch, notes, pid)
 
 
 # ----------------------------------------------------------------------------------------------
@@ -327,7 +361,7 @@ def concrete_playback(scratch, ob):
         return info
     # append the generated unit test to the harness file inside the scratch copy and run it natively
     root = os.path.join(scratch, CRATE_ROOT[ob["crate"]])
-    hf = os.path.join(root, "src", "verif_kani", os.path.basename(ob["file"]))
+    hf = os.path.join(root, "src", "verif_kani", os.path.basename(ob["file"]))  # the injected copy
     test_src = res["playback"]
     m = re.search(r"fn (kani_concrete_playback_\w+)\(", test_src)
     with open(hf, "a") as fh:
@@ -349,8 +383,8 @@ def concrete_playback(scratch, ob):
 
 
 def write_replay(pid, ob, res, detail, scratch, tier):
-    os.makedirs(os.path.join(VERIF, "replays"), exist_ok=True)
-    path = os.path.join(VERIF, "replays", f"{pid}-{ob['obligation']}.json")
+    os.makedirs(os.path.join(OUT_ROOT, "replays"), exist_ok=True)
+    path = os.path.join(OUT_ROOT, "replays", f"{pid}-{ob['obligation']}.json")
     rep = {
         "property": pid,
         "obligation": ob["obligation"],
@@ -632,7 +666,7 @@ def decide(pid, tier):
                     sup = os.path.join(KANI_DIRS[c], "support.rs")
                     if os.path.exists(sup):
                         files_by_crate[c].add(sup)
-                inject(scratch, crates, files_by_crate, notes)
+                inject(scratch, crates, files_by_crate, notes, pid)
                 build_s = kani_build(scratch, crates)
                 log(f"[{pid}] kani codegen done in {build_s:.1f}s; running {len(kani_obs)} harnesses, {JOBS} parallel")
                 with cf.ThreadPoolExecutor(max_workers=JOBS) as ex:
@@ -743,8 +777,8 @@ def decide(pid, tier):
             "wall_s": round(time.time() - t_start, 1),
             "violations": len(violations),
         }
-        os.makedirs(os.path.join(VERIF, "evidence"), exist_ok=True)
-        json.dump(ev, open(os.path.join(VERIF, "evidence", f"{pid}.json"), "w"), indent=1)
+        os.makedirs(os.path.join(OUT_ROOT, "evidence"), exist_ok=True)
+        json.dump(ev, open(os.path.join(OUT_ROOT, "evidence", f"{pid}.json"), "w"), indent=1)
         for l in vio_lines:
             log(l)
         if violations:
